@@ -1,4 +1,4 @@
-CONSTANTS N = 1 Q = 0 NCalls = 3
+CONSTANTS N = 1 Q = 0 NCalls = 3 WithObs = FALSE
 INIT Init
 NEXT Next
 PROPERTIES StrictAdmission
